@@ -15,5 +15,5 @@ CONSTANTS
   F6Quirk = FALSE
   F7Quirk = FALSE
   PoorShare = 0
-INVARIANTS ErrAgree ConformCounters ConformNet ConformChains ConformLogs ReloadOpens ConformShadowCounters ConformShadowChains ConformShadowLogs ConformFwd AtMostOneTx ConformStatic OraclesHold Conservation Mirror NextPointRule ReestPointRule ConformMods ConformShadowMods
+INVARIANTS ErrAgree ConformCounters ConformNet ConformChains ConformLogs ReloadOpens ConformShadowCounters ConformShadowChains ConformShadowLogs ConformFwd ConformDack AtMostOneTx ConformStatic OraclesHold Conservation Mirror NextPointRule ReestPointRule ConformMods ConformShadowMods
 CHECK_DEADLOCK TRUE
